@@ -12,4 +12,32 @@ func init() {
 		"Two parts. C53wu: generated operation sequences over the mem API (NewBuffer, Copy, Ref, Free, Slice, SplitUnsafe, ReadUnsafe, Materialize, MaterializeToBuffer, Reader, real pools) on 1-3 goroutines against a reference model, with a tracking pool that records and poisons every Put: memory returned exactly once, never while referenced, exactly when the last reference is freed; live references read the original bytes; zeroing pools hand out zeros. C53we: the same tracking pool installed in a real client and server under cancel, reset, cut, half-close, blackhole, Stop/GracefulStop: no double Put, no use after Put (poison shows up in the wire byte ledger and the receive-payload oracle).",
 		"Buffers never returned are only counted in C53we (grpc-go drops unread receive buffers for the GC).",
 		"reference-model check of the mem API + tracking, poisoning pool in end-to-end runs"))
+	regProp("C01", (&Prop{Parts: []string{"C01we", "C01wt", "C01wts"}}).doc(
+		"Three parts, one oracle family (an independent HTTP/2 decoder on the simulated wire keeps, per direction, the stream and connection send windows implied by RFC 9113 from SETTINGS/WINDOW_UPDATE/DATA and flags the first DATA byte beyond either, and every frame above the peer's MAX_FRAME_SIZE). C01we: real client against real server, both directions, windows 1 B..1 MiB, BDP on/off, faults. C01wt: the real client sends to a scripted server that uses every freedom of the RFC (windows lowered below the bytes outstanding, 1-byte updates, updates for closed streams, SETTINGS races). C01wts: the real server sends to a scripted client doing the same.",
+		"The scripted peers are stubs; the tap's decoder is x/net/http2's Framer, not grpc-go's.",
+		"wire-tap window ledger, end-to-end and against scripted adversarial peers on either side"))
+	regProp("C02", (&Prop{Parts: []string{"C02we", "C02wt", "C02wts"}}).doc(
+		"Three parts. Attributable payload patterns; the wire tap re-assembles every stream into gRPC messages and compares bytes, lengths, order and count with what the application submitted; END_STREAM exactly once and last; nothing after a stream's own END_STREAM/RST_STREAM. C02we: real client and server under cancel/deadline/reset/cut/half-close/stall. C02wt: real client against a scripted server (RST and trailers mid-message, window boundaries inside the 5-byte prefix). C02wts: real server against a scripted client.",
+		"The scripted peers are stubs. A message whose SendMsg returned an error may or may not be on the wire; only complete, in-order prefixes are required then.",
+		"wire-tap byte ledger, end-to-end and against scripted peers on either side"))
+	regProp("C03", (&Prop{Parts: []string{"C03wt", "C03wts"}}).doc(
+		"Two parts (client sender, server sender). Liveness at requested quiescent points: a stream with application bytes queued and both its stream window and the connection window positive must have written them; fairness (round robin between streams with data and credit) is judged only inside quiet phases fenced by a PING/ACK, where the set of eligible streams is known exactly.",
+		"Scripted peers are stubs. Outside fenced phases fairness is not asserted.",
+		"quiescence liveness oracle over the window ledger + fenced quiet-phase round-robin model"))
+	regProp("C04", (&Prop{Parts: []string{"C04wt", "C04wts"}}).doc(
+		"Two parts (client receiver, server receiver). A scripted sender that tracks exactly the credit the receiver advertised: class A stays within it while using every byte (padding, arbitrary frame splits, messages of several windows, BDP pings answered after controlled delays) and must never be rejected or stalled, and all payload arrives intact; class B exceeds the stream window by 1..n bytes once the application is provably idle and must be rejected with FLOW_CONTROL_ERROR and deliver nothing beyond the window; the advertised window never exceeds 2^31-1; after the traffic drains the windows return to the configured value minus less than a quarter (the update threshold).",
+		"Scripted peers are stubs. The quarter-window slack is the implementation's documented update threshold. Connection-level excess is not rejected by grpc-go (no limit check in trInFlow) and is not asserted.",
+		"credit-exact scripted sender with PING-fenced window knowledge; advertised-window ledger on the wire tap"))
+	regProp("C14", (&Prop{Parts: []string{"C14we", "C14wt", "C14wts"}}).doc(
+		"Three parts. C14we: real client and server, GracefulStop/Stop/MaxConnectionAge racing with RPC starts; every RPC executes at most once on the server unless the client saw it fail, and ends with a status. C14wt: the real client against a scripted server sending one or two GOAWAYs with arbitrary last-stream-ids: no new stream on that connection afterwards, streams above the id fail UNAVAILABLE/are retried transparently, streams at or below it are untouched. C14wts: the real server draining against a scripted client: two-phase GOAWAY, final id covers exactly the streams it serves to completion, none above it is processed.",
+		"Scripted peers are stubs.",
+		"GOAWAY race exploration with per-attempt wire attribution and quiescence-anchored wire rules"))
+	regProp("C15", (&Prop{Parts: []string{"C15wt", "C15wts"}}).doc(
+		"Two parts under virtual time with zero network latency. C15wt: client keepalive (Time, Timeout, PermitWithoutStream) against scripted server timelines placed at Time-eps / Time / Time+eps and Timeout-eps / Timeout / Timeout+eps: a silent peer is detected within Time+Timeout, a peer that answers is never closed. C15wts: server keepalive, MaxConnectionIdle/Age/Grace and the enforcement policy (ping strikes, GOAWAY too_many_pings) against a scripted client.",
+		"Scripted peers are stubs; complete frames are the unit of 'received'.",
+		"virtual-time keepalive timelines against scripted peers with direct observation of close/GOAWAY"))
+	regProp("C17", (&Prop{Parts: []string{"C17wti", "C17wt"}}).doc(
+		"Two parts. C17wti: the real writeQuota (flowcontrol.go) under seeded interleavings of get/replenish/done with function-style atomics rewritten to scheduling points: a blocked get is released once enough was replenished or the stream ended; quota returns to the initial value. C17wt: stream-quota waiters in a whole client transport against a scripted server (see that part).",
+		"One sender per stream is assumed (gRPC forbids concurrent SendMsg on a stream).",
+		"seeded schedule search over the real writeQuota + quiescence oracle for stream-quota waiters"))
 }
